@@ -20,16 +20,21 @@ func ZZ_C07_Undo() {
 		name string
 		key  string
 	}
-	ops := []op{{"a", "a"}, {"b", "b"}, {"space", " "}, {"backspace", "\x08"}, {"kill-line", "\x0b"}, {"yank", "\x19"},
-		{"kill-word", "\x1c"}, {"bol", "\x01"}, {"eol", "\x05"}}
+	ops := []op{{"a", "a"}, {"b", "b"}, {"space", " "}, {"backspace", "\x7f"}, {"kill-line", "\x0b"}, {"yank", "\x19"},
+		{"kill-word", "\x1c"}, {"bol", "\x01"}, {"eol", "\x05"}, {"unix-line-discard", "\x15"}}
 	undoKey, redoKey := "\x1f", "\x1d"
 	if variant == "walk" {
 		ops = append(ops, op{"undo", undoKey})
 	}
+	if variant == "walk-deep" {
+		// a smaller alphabet allows longer sequences
+		ops = []op{{"a", "a"}, {"b", "b"}, {"backspace", "\x7f"}, {"kill-line", "\x0b"}, {"undo", undoKey}}
+		variant = "walk"
+	}
 	if variant == "crash" {
 		// C01: short editing sequences with undo and redo freely mixed; nothing is asserted,
 		// the engine reports panics / hangs
-		ops = []op{{"a", "a"}, {"backspace", "\x08"}, {"kill-line", "\x0b"}, {"yank", "\x19"}, {"undo", undoKey}, {"redo", redoKey}}
+		ops = []op{{"a", "a"}, {"backspace", "\x7f"}, {"kill-line", "\x0b"}, {"yank", "\x19"}, {"undo", undoKey}, {"redo", redoKey}}
 	}
 	script := &zzverif.Script{}
 	rl := zzSession(script)
